@@ -234,11 +234,18 @@ def _flat(xs):
 class RealRO:
     kind = 'real'
 
-    def __init__(self, style=None):
+    def __init__(self, style=None, front='ro'):
         from rsome import ro
         import rsome as rso
         self.rso = rso
-        self.m = ro.Model()
+        self.front = front
+        if front == 'dro':
+            # the same deterministic description through the dro front end (DecVar / DecAffine / DecConvex classes,
+            # dro.Model.do_math): one scenario, no ambiguity set
+            from rsome import dro
+            self.m = dro.Model()
+        else:
+            self.m = ro.Model()
         self.dvars, self.rvars, self.ldrs = [], [], []
         self.sets = {}
         self.style = style or {}
@@ -390,6 +397,21 @@ class RealRO:
         n = formula.linear.shape[1]
         sent = np.arange(n, dtype=float) + 0.25
         sol = Solution('sentinel', 0.0, sent, 0, 0.0)
+        if self.front == 'dro':
+            rc = self.m.ro_model.rc_model
+            keep = (rc.solution, self.m.solution)
+            rc.solution = sol
+            self.m.solution = sol
+            try:
+                names = {}
+                for k, x in enumerate(self.dvars):
+                    vals = np.array(x.get()).reshape(-1)
+                    base = pvars('x%d' % k, x.shape).reshape(-1)
+                    for p, v in zip(base, vals):
+                        names[p_name(p)] = _col(v, n)
+            finally:
+                rc.solution, self.m.solution = keep
+            return names
         keep = (self.m.rc_model.solution, self.m.solution)
         self.m.rc_model.solution = sol
         self.m.solution = sol
